@@ -122,5 +122,7 @@ func RawBytes(r *Rand) string {
 
 // BlankOnly tells whether the input is empty or consists only of blank characters/lines.
 func BlankOnly(s string) bool {
-	return strings.Trim(s, " \t\r\n") == ""
+	// (white space in the Unicode sense: a line holding only U+3000 or U+00A0 is as blank as one
+	// holding a tab)
+	return strings.TrimSpace(s) == ""
 }
